@@ -3,6 +3,15 @@ import json, os
 VERIF = os.path.dirname(os.path.dirname(os.path.abspath(__file__)))
 PROOF = "proof"
 CHECKS = {
+ "C16": dict(
+    text="Lean 4 theorems by induction on the chain of shift-register cores, for every N, every per-position alphabet and every weight "
+         "list: weight_mask is 1 exactly on strings whose symbols sum to a requested weight (0 elsewhere), weight returns the sum, the "
+         "open trailing bond of weight_one_hot is the one-hot vector of the sum (overflow dropped). The three automata are tied to /repo "
+         "core-for-core (exact); accepted_inputs (order, multiplicity) by an exhaustive argwhere oracle on small integer TTs.",
+    note="Trusted: Lean kernel + standard axioms; harness glue; sampling. accepted_inputs has no Lean model (its DFS with right-product "
+         "pruning is compared with np.argwhere with multiplicity); .round() on float noise inside accepted_inputs is outside.",
+    tech="Lean 4 proof (induction over the automaton's cores) + exact differential correspondence + enumeration oracle",
+    ref="§3 C16"),
  "C20": dict(
     text="Lean 4 theorems: tn.partial along mode d is the stencil matrix applied to mode d only, so every entry of the compressed "
          "derivative is the stencil row of its own index applied to the dense fibre (L1, any number of modes/ranks/formats); stencil rows: "
